@@ -59,6 +59,10 @@ def synthetic_grammars():
         out.append(table_grammar('G5', ['A', 'B'], ['R'],
                                  {('A', 'B'): [('Q', 'q'), ('R', 'r')], ('B', 'A'): [('Q', 'q2')], ('Q', 'A'): [('R', 'qa')], ('A', 'Q'): [('Q', 'aq')],
                                   ('A', 'A'): [('A', 'aa')], ('R', 'B'): [('Q', 'rb')]}, {}, hl))
+        # G7 a root category that itself has a unary rule to another root (chains above an already complete analysis)
+        out.append(table_grammar('G7', ['A', 'C'], ['A', 'B'],
+                                 {('A', 'A'): [('A', 'aa')], ('C', 'A'): [('B', 'ca')], ('B', 'A'): [('A', 'ba')], ('A', 'C'): [('C', 'ac')]},
+                                 {'A': [('B', 'u_ab')], 'C': [('A', 'u_ca')]}, hl))
         # G6 three-category grammar of the hand counter-example for the outside estimate
         out.append(table_grammar('G6', ['X'], ['S'], {('X', 'X'): [('Z', 'xx')], ('Z', 'X'): [('S', 'zx')], ('X', 'Z'): [('S', 'xz')]}, {}, hl))
     return out
